@@ -39,7 +39,11 @@ def gen(rng, names, tier, falsy_p=0.35, depth_choices=(1, 1, 1, 2, 2, 3), clocks
             # Notification.__eq__ (string based, ints widened to float) is not part of any property: compare by key instead
             a["key"] = ctx.fn("key")
         chain.append({"op": name, "id": ctx.next_id(), "a": a})
-    return {"clock": rng.choice(clocks), "sources": ctx.sources, "chain": chain, "sub_t": 205, "horizon": 1200}
+    sc = {"clock": rng.choice(clocks), "sources": ctx.sources, "chain": chain, "sub_t": 205, "horizon": 1500}
+    off = rng.choice([None, None, None, 37, 123, 411])
+    if off:
+        sc["sub2_t"] = 205 + off  # the same observable object is subscribed a second time
+    return sc
 
 
 def execute(sc, MODELS, compare_times=True):
@@ -53,6 +57,10 @@ def execute(sc, MODELS, compare_times=True):
     rec = vt.Recorder(w, "r", follow=False)
     t0 = sc["sub_t"]
     w.at(t0, lambda: rec.subscribe(obs))
+    rec2 = None
+    if sc.get("sub2_t") is not None:
+        rec2 = vt.Recorder(w, "r2", follow=False)
+        w.at(sc["sub2_t"], lambda: rec2.subscribe(obs))
     w.run(sc["horizon"])
     # model
     evs = visible(spec, t0)
@@ -88,6 +96,22 @@ def execute(sc, MODELS, compare_times=True):
     if not _same(want, got, compare_times):
         out.bad("model-mismatch", "chain=%s expected=%s got=%s" % (
             [(n["op"], n["a"]) for n in sc["chain"]], want, got))
+    if rec2 is not None and not out.viol:
+        t2 = sc["sub2_t"]
+        try:
+            evs2 = visible(spec, t2)
+            for node in sc["chain"]:
+                evs2 = MODELS[node["op"]](node["a"], evs2, t2)
+        except (models.Tie,) + _BENIGN:
+            return out
+        out.probes["second_subscription_checked"] += 1
+        g2 = vt.grammar_violation(rec2)
+        if g2:
+            out.bad("grammar", g2)
+        want2, got2 = models.norm(evs2), models.norm(rec2.events_kv())
+        if not _same(want2, got2, compare_times):
+            out.bad("model-mismatch", "chain=%s [second subscription of the same observable at t=%s] expected=%s got=%s" % (
+                [(n["op"], n["a"]) for n in sc["chain"]], t2, want2, got2))
     return out
 
 
